@@ -171,4 +171,28 @@ theorem quiet_needed :
     runMon {} (modelTrace {} earlyEnd) = some .endNoLost ∧ ¬ okRun [] {} earlyEnd ∧
     quietB (stateAfter {} earlyEnd.dropLast).srv = false := by decide
 
+/-- **refused_unsubscribe_keeps_subscription.**  `Server.unsubscribe` calls the application's `UnsubscribeHandler`
+first and returns its error before it touches the table: a legacy session whose `resources/unsubscribe` the
+application refuses gets the error and STAYS subscribed (nothing of the composed state changes). -/
+theorem refused_unsubscribe_keeps_subscription (y : State) (i : Slot) (u : Nat) (hint : Option Who)
+    (hu : (y.slots i).used = true) (hc : (y.slots i).connected = true) (hm : (y.slots i).modern = false)
+    (hp : (y.slots i).parked.contains (ridOf u) = false) (hh : (y.slots i).cancelHeld.contains (ridOf u) = false)
+    (hr : y.refused.contains u = true) :
+    sysStep y (.unsubscribe i u false) hint = (y, .err) := by
+  have hp' : ridOf u ∉ (y.slots i).parked := by simpa using hp
+  have hh' : ridOf u ∉ (y.slots i).cancelHeld := by simpa using hh
+  have hr' : u ∈ y.refused := by simpa using hr
+  simp [sysStep, hu, hc, hm, hp', hh', hr']
+
+/-- a legacy session subscribes, the application starts refusing, the session's unsubscribe fails, an update
+still reaches it; the application accepts again, the unsubscribe succeeds, the next update reaches nobody -/
+def refusedUnsubRun : List (Op × Option Who) :=
+  [(.config .on .on .on true, none), (.connect 0 1 false [], none), (.subscribe 0 0 false, none), (.policy 0 true, none),
+   (.unsubscribe 0 0 false, none), (.rupdated 0 0, none), (.policy 0 false, none), (.unsubscribe 0 0 false, none),
+   (.rupdated 0 0, none), (.fin, none)]
+
+set_option maxRecDepth 20000 in
+example : (stateAfter {} (refusedUnsubRun.take 6)).srv.rlive = [(1, 0)] ∧ (stateAfter {} refusedUnsubRun).srv.rlive = [] ∧
+    okRun [] {} refusedUnsubRun ∧ runMon {} (modelTrace {} refusedUnsubRun) = none := by decide
+
 end Notify.Bridge
